@@ -22,6 +22,13 @@ def open_case(spec):
 _OPENED = []
 
 
+def track(spec, ds, what=None):
+    """Register a dataset a check built itself (specs.build) for the runner's
+    dataset_untouched invariant.  Call it right after building, before anything is done with it."""
+    _OPENED.append((ds, snapshot_of_case(spec, ds), what or f"{spec['conv']} dataset"))
+    return ds
+
+
 def reset_opened():
     del _OPENED[:]
 
